@@ -1,6 +1,7 @@
 import PugModel.Tpl.Exec
 import PugProofs.Props.C10
 import PugProofs.C03.Frame
+import PugProofs.Props.C08
 /-!
 # C03 — mixins bind arguments, attributes and block content per call
 
@@ -170,5 +171,14 @@ example :
     rfl
   rw [hc]
   rfl
+
+/-- **C03 (no state outlives a render or a compilation in package variables).** The inventory of package-level variables of pugjs and
+templatefunctions, regenerated from the Go source on every run, holds nothing but the known entries: no cache, pool, shared empty
+object, memo table or once-guard has been added through which one call, one compilation or one render could reach the next (rounds 5-7
+of the seeded changes added such a variable five times: a shared empty attributes map, a shared empty array, an AST cache, a buffer
+pool). Restated here so that THIS property's check fails on it before any input is drawn. -/
+theorem C03_package_state_inventory :
+    Gen.pkgState_ok = true ∧ Gen.pkgState.all (fun v => Pug.Props.C08.knownPkgState.contains v) = true :=
+  Pug.Props.C08.C08_package_state_inventory
 
 end Pug.Props.C03
